@@ -4,6 +4,10 @@ import importlib.util
 def load_module(module_path: str):
     spec = importlib.util.spec_from_file_location(module_path, module_path)
     module = importlib.util.module_from_spec(spec)
-    spec.loader.exec_module(module)
+    # Compile the source that is on disk instead of trusting the bytecode cache: a cache entry is
+    # validated by (whole-second mtime, size) only, so a file rewritten within the same second
+    # with a text of the same length would be served stale.
+    code = spec.loader.source_to_code(spec.loader.get_data(module_path), module_path)
+    exec(code, module.__dict__)
 
     return module
